@@ -135,7 +135,7 @@ package gtree
 //@   requires nn: cs != nil && cs.colorizeSpreaderSimple != nil && colorizeOK(cs.colorizeSpreaderSimple) && ctx != nil
 //@   requires start: spText == ""
 //@   modifies out, wfail, counter.n, spText
-//@   after spreadBranch: spText := spText ++ specDryRoot(cs.colorizeSpreaderSimple.fileColor, cs.colorizeSpreaderSimple.dirColor, cs.colorizeSpreaderSimple.fileConsiderer.extensions, root)
+//@   after spreadBranch: spText := spText ++ specDryRoot(cs.colorizeSpreaderSimple.fileColor, cs.colorizeSpreaderSimple.dirColor, cs.colorizeSpreaderSimple.fileConsiderer.extensions, arg0)
 //@ loop gtree.colorizeSpreaderPipeline.spread#1#1
 //@   invariant ok: colorizeOK(cs.colorizeSpreaderSimple) && bw != nil && bw.under == w
 //@   invariant sofar [C09]: out[w] ++ bw.pending == old(out[w]) ++ spText && wfail == old(wfail)
